@@ -10,10 +10,40 @@ NOTES = ("All checks are generated-input search against an explicit oracle (rapi
          "tree by content hash before every run. Known findings: /verif/known_findings.json. Design: /verif/DESIGN.md.")
 ENGINES = [
     {"name": "rapidcheck", "path": "/verif/harness/rcx.hpp", "serves_properties": ["C17"], "kind_free_text": "property-based testing with integrated shrinking"},
+    {"name": "libFuzzer", "path": "/verif/fuzz/fuzz_stream.cpp", "serves_properties": ["C01", "C05", "C06", "C09", "C10"], "kind_free_text": "coverage-guided fuzzing, structure-aware decode, in-target oracles"},
     {"name": "enumerators", "path": "/verif/checks", "serves_properties": ["C17"], "kind_free_text": "exhaustive bounded enumeration, shortest first, sharded over 16 processes"},
 ]
 NOT_APPLICABLE = {}
+_FZ_NOTE = ("Trusted: the vdrv driver and its monitors (harness/vdrv.cpp), ASan/UBSan/LSan, libFuzzer. Coverage-guided search is not exhaustive and only "
+            "approximately reproducible from the seed; saved artifacts replay exactly. Callers that destroy transactions from inside callbacks are outside the domain.")
 META = {
+    "C01": dict(
+        engine="libFuzzer (fuzz_stream) + sanitizers",
+        technique="coverage-guided fuzzing with structure-aware decode (config x callback plan x two streams x call schedule) under ASan+UBSan+LSan; exact-size freed-after-call chunk copies as the over-read/retained-pointer oracle",
+        level_text=("Millions of generated call histories (arbitrary bytes, chunkings, gaps, close, tx destruction, non-OK callbacks, per-tx hooks, all personalities and limit "
+                    "settings) run without any sanitizer report, hang or leak. Exploration: absence of memory errors is not established, only not found within the budget."),
+        design_ref="DESIGN.md section 3, C01", level_note=_FZ_NOTE),
+    "C05": dict(
+        engine="libFuzzer (fuzz_stream) + lifecycle monitor",
+        technique="coverage-guided fuzzing with an in-target runtime monitor (per-transaction lifecycle automaton over the callback trace); known tolerance branches attributed through trace points",
+        level_text=("Every callback of every generated history is checked against the lifecycle automaton (order, monotone progress, at-most-once completion, nothing after "
+                    "transaction-complete). Exploration over fuzzer-generated histories that follow the hand-over protocol."),
+        design_ref="DESIGN.md section 3, C05", level_note=_FZ_NOTE),
+    "C06": dict(
+        engine="libFuzzer (fuzz_stream) + accounting monitor (exactness part: see DESIGN)",
+        technique="coverage-guided fuzzing with an in-target accounting monitor (entity_len == bytes delivered, message_len >= entity_len, end-of-body marker before completion)",
+        level_text=("Accounting invariants hold at every *_complete callback and at teardown for every generated history. Exploration."),
+        design_ref="DESIGN.md section 3, C06", level_note=_FZ_NOTE),
+    "C09": dict(
+        engine="libFuzzer (fuzz_stream) + API contract monitor",
+        technique="coverage-guided fuzzing with an in-target contract monitor evaluated after every data call (return code set, consumed counts, sticky ERROR/STOP, byte counters)",
+        level_text=("The stream API contract holds after every call of every generated history. Exploration."),
+        design_ref="DESIGN.md section 3, C09", level_note=_FZ_NOTE),
+    "C10": dict(
+        engine="libFuzzer (fuzz_stream) + retention monitor",
+        technique="coverage-guided fuzzing with an in-target retention monitor reading the parser's private buffer sizes after every call under generated field limits and max_tx",
+        level_text=("Buffered bytes never exceed the configured hard limit and the transaction list never exceeds max_tx+1 on any generated history. Exploration."),
+        design_ref="DESIGN.md section 3, C10", level_note=_FZ_NOTE),
     "C17": dict(
         engine="rapidcheck + exhaustive enumeration",
         technique="model-based property testing (rapidcheck op sequences vs std::deque / ordered multimap models) + exhaustive small-alphabet argument enumeration vs naive references + boundary-value digit strings vs __int128",
